@@ -23,3 +23,8 @@ def run(ctx):
     ctx.prefetch(["b3sum"])
     for r in ("B1", "B2", "B3", "B4", "P1"):
         ctx.run_rule(r, getattr(r_b3sum, "rule_" + r), ["b3sum"])
+    # b3sum's digest is the library's update_mmap_rayon / update_reader output: the adapters it calls (C11's rules)
+    import r_io
+    ctx.prefetch(["asm-full"])
+    ctx.run_rule("I1", r_io.rule_I1, ["asm-full"])
+    ctx.run_rule("I3", r_io.rule_I3, ["asm-full"])
